@@ -199,6 +199,67 @@ def check(rep, F, tier, replay=None):
             rep.sample({"rule": "SKIP-eq", "fields": sorted(sr), "skipped": sorted(fs - sr)})
     else:
         rep.lost("TransactionOutput serde / PartialEq impls")
+    # JSON-variant: every address variant a decoded structure can hold must be readable back from its JSON (bech32) form
+    rep.rule("JSON-variant", "every AddrType variant the lenient decoder can produce (what a decoded output may hold, and what to_json prints as bech32) can also be produced by the parser behind the JSON reader (Address::from_bech32)")
+    len_ids = F.by_key("Address::from_bytes_impl_unsafe")
+    bech_ids = F.by_key("Address::from_bech32")
+    if len(len_ids) != 1 or len(bech_ids) != 1:
+        rep.lost("Address::from_bytes_impl_unsafe / from_bech32 not found")
+    else:
+        def variants_built(root):
+            seen_, work_ = set(), [root]
+            while work_:
+                f_ = work_.pop()
+                if f_ in seen_:
+                    continue
+                seen_.add(f_)
+                for sub_ in [f_] + [c for c in F.fns if c.startswith(f_ + "::{closure")]:
+                    for c_ in F.calls(sub_):
+                        if c_.to in F.fns and c_.to not in seen_:
+                            work_.append(c_.to)
+            vs_ = set()
+            for f_ in seen_:
+                for sub_ in [f_] + [c for c in F.fns if c.startswith(f_ + "::{closure")]:
+                    for bb_ in F.fns[sub_]["bbs"]:
+                        for st_ in bb_["st"]:
+                            if st_[1] == "=" and st_[3][0] == "agg" and st_[3][2].endswith("address::AddrType"):
+                                vs_.add(st_[3][3])
+            return vs_
+        lv, bv = variants_built(len_ids[0]), variants_built(bech_ids[0])
+        rep.inst("JSON-variant", max(1, len(lv)))
+        rep.floor("address variants the lenient decoder can build", 5, len(lv))
+        for v_ in sorted(lv - bv):
+            rep.violation("JSON-variant", "Address|%s" % v_, "an Address of variant %s can sit in a decoded structure and is printed by to_json as bech32, but the parser behind from_json (Address::from_bech32) can never build that variant: to_json -> from_json fails for the address and for every structure containing it" % v_, {})
+    # WRITE-eq: a hand-written JSON writer must not skip a field that equality depends on
+    rep.rule("WRITE-eq", "every hand-written serde::Serialize impl of a struct reads (transitively, depth 3) every field that the type's equality compares: a field the writer skips comes back as a default and the value is no longer equal after to_json -> from_json")
+    n_we = 0
+    for im in F.impls:
+        if (im.get("trait") or "") != "serde::Serialize" or im.get("derive") or "/tests/" in im.get("file", ""):
+            continue
+        adt_ = im.get("self_adt") or im["self_ty"]
+        a_ = F.adts.get(adt_)
+        if not a_ or a_["kind"] != "struct":
+            continue
+        fs_ = {f["name"] for f in a_["variants"][0]["fields"]}
+        sid_ = [m["id"] for m in im["methods"] if m["name"] == "serialize"]
+        if not sid_ or sid_[0] not in F.fns:
+            continue
+        rd_ = {f for (x, f) in fields_read(F, sid_[0], depth=3) if x == adt_} & fs_
+        eqs_ = [i2 for i2 in F.impls if (i2.get("trait") or "").startswith("std::cmp::PartialEq") and (i2.get("self_adt") or i2["self_ty"]) == adt_]
+        if not eqs_:
+            continue
+        if eqs_[0].get("derive"):
+            eqf_ = set(fs_)
+        else:
+            eid_ = [m["id"] for m in eqs_[0]["methods"] if m["name"] == "eq"]
+            if not eid_ or eid_[0] not in F.fns:
+                continue
+            eqf_ = {f for (x, f) in fields_read(F, eid_[0], depth=2) if x == adt_} & fs_
+        n_we += 1
+        rep.inst("WRITE-eq")
+        for f_ in sorted(eqf_ - rd_):
+            rep.violation("WRITE-eq", "%s|%s" % (H.short(adt_), f_), "%s: the hand-written JSON writer never reads `%s`, which equality compares: the field is lost in to_json and from_json restores a default" % (H.short(adt_), f_), {})
+    rep.floor("hand-written JSON writers of structs compared with equality", 40, n_we)
     # HEX-sym
     rep.rule("HEX-sym", "`0x` hex string <-> bytes conversion applies under exactly the same schemas on the encode and the decode side")
     MV = ["NoConversions", "BasicConversions", "DetailedSchema"]
